@@ -650,9 +650,8 @@ class ExcludeRegionState(object):  # pylint: disable=too-many-instance-attribute
             these commands are sent to the printer.
         """
         isDebug = self._logger.isEnabledFor(logging.DEBUG)
-        startPosition = None
-        if (isDebug):
-            startPosition = Position(self.position)
+        # The position before this command is applied (where the tool physically is)
+        startPosition = Position(self.position)
 
         eAxis = self.position.E_AXIS
         priorE = eAxis.current
@@ -699,7 +698,12 @@ class ExcludeRegionState(object):  # pylint: disable=too-many-instance-attribute
             # for Marlin 1.1.9).
             returnCommands = self._processNonMove(cmd, deltaE)
         elif (self.isAnyPointExcluded(*xyPairs)):
+            wasExcluding = self.excluding
             returnCommands = self._processExcludedMove(cmd, deltaE)
+            if (self.excluding and not wasExcluding):
+                # The excluded move is not executed, so the tool is still at the position it had
+                # before this command.  That is the position to compare against when exiting.
+                self.lastPosition = startPosition
         elif (self.excluding):
             # Moving from an excluded region into a non-excluded region.
             # Processes the necessary commands to move the tool to the new position specified by the
